@@ -1000,17 +1000,40 @@ func Run(repo *load.Repo, s *report.Sink) (err error) {
 	s.SetFact("sched.loop", m.pos(m.fnLoop.Pos()))
 	s.SetFact("sched.worker", m.pos(m.fnWorker.Pos()))
 	s.SetFact("sched.representation", "go/ssa (value identity, dominance of conditional edges, natural loops); single-site helpers analysed in their calling context")
-	m.ruleOwnership(s)
-	m.ruleSealed(s)
-	m.ruleAdmissionDispatch(s)
-	m.ruleCountdown(s)
-	m.ruleSpawn(s)
-	m.ruleWorker(s)
-	m.ruleExitDuties(s)
-	m.ruleLoopExits(s)
-	m.ruleWaitEnqueue(s)
-	m.ruleConservation(s)
-	m.ruleState(s)
-	m.rulePlumbing(s)
+	// each group of rules runs under its own recover: a construct one rule cannot digest leaves that rule
+	// undecided (which fails the properties it supports) without silencing the others
+	groups := []struct {
+		name  string
+		rules []string
+		run   func(*report.Sink)
+	}{
+		{"ownership", []string{"S1", "S2", "S3"}, m.ruleOwnership},
+		{"sealed job", []string{"S4"}, m.ruleSealed},
+		{"admission and dispatch", []string{"S5", "S6", "S27"}, m.ruleAdmissionDispatch},
+		{"countdown", []string{"S7", "S8", "S23"}, m.ruleCountdown},
+		{"spawn", []string{"S9", "S10", "S12"}, m.ruleSpawn},
+		{"worker", []string{"S11", "S13", "S14", "S15", "S24"}, m.ruleWorker},
+		{"exit duties", []string{"S16"}, m.ruleExitDuties},
+		{"loop exits", []string{"S17", "S18", "S19", "S22", "S30"}, m.ruleLoopExits},
+		{"wait and enqueue", []string{"S20", "S21"}, m.ruleWaitEnqueue},
+		{"conservation", []string{"S25"}, m.ruleConservation},
+		{"state report", []string{"S26", "S28"}, m.ruleState},
+		{"plumbing", []string{"S29", "L5"}, m.rulePlumbing},
+	}
+	for _, g := range groups {
+		func() {
+			defer func() {
+				if r := recover(); r != nil {
+					if os.Getenv("CFFVERIF_TRACE") != "" {
+						os.Stderr.Write(debug.Stack())
+					}
+					for _, id := range g.rules {
+						s.Unk(id, "analyser|"+g.name, "", fmt.Sprintf("the %s rules could not be evaluated on this code (analyser panic: %v)", g.name, r))
+					}
+				}
+			}()
+			g.run(s)
+		}()
+	}
 	return nil
 }
